@@ -235,7 +235,7 @@ pub struct Const {
 
 #[derive(Serialize, Deserialize, Debug, Clone, PartialEq)]
 pub struct Method {
-    #[serde(default, skip_serializing_if = "BoolExt::is_true")]
+    #[serde(default = "default_true", skip_serializing_if = "BoolExt::is_true")]
     pub oneway: bool,
     pub name: String,
     pub return_type: Type,
@@ -557,6 +557,11 @@ impl Type {
             full_range: Range::new(lookup, start, end),
         }
     }
+}
+
+// A skipped (oneway) flag is read back as true
+fn default_true() -> bool {
+    true
 }
 
 trait BoolExt {
